@@ -40,7 +40,8 @@ TIERS = {
 }
 RULE = ("case = seeded continuum (2..4 annotators, <= 8 units each; overlap-heavy families nested / staircase / long-spanning plus "
         "the general ones, empty annotators) x dissimilarity x EVERY window size 1..ceil(units/annotators)+1, each call under the "
-        "progress monitor; a fraction of cases additionally run fast-mode and exact-mode gamma in the simulated pool. "
+        "progress monitor; a third of the cases then edit the SAME continuum object (move a unit to another annotator / remove / add) and "
+        "judge best + every window again with the same dissimilarity object; a fraction of cases additionally run fast-mode and exact-mode gamma in the simulated pool. "
         "distinct_nontrivial = distinct (continuum, dissimilarity, window) triples with >= 2 window iterations")
 ASSUMPTIONS = [
     "progress = the working copy loses at least one unit per window iteration (observed at get_first_window)",
@@ -83,12 +84,40 @@ def gen(ch, tier):
     else:
         case = ac.gen_align_case(ch, max_annot=ch.choice([2, 2, 3, 4]), max_units=ch.choice([3, 5, 8]), max_total=32,
                                  max_candidates=7000, families=[(fam_pick, 1)])
+    if ch.coin(0.33):
+        h = ch.sub("edits")
+        # [op, annotator index, unit index, start, duration, label index]; "move" keeps the total number of units
+        case["edits"] = [[h.choice(["move", "move", "remove", "add"]), h.randint(0, 4), h.randint(0, 30), world.r3(h.uniform(0, 25)),
+                          world.r3(h.uniform(0.5, 4)), h.randint(0, 30), h.randint(1, 4)] for _ in range(h.randint(1, 2))]
     if ch.coin(cfg["p_gamma"]):
         g = ch.sub("gamma")
         case["gamma"] = {"sampler": g.choice(["stat", "shuffle_int", "shuffle_float"]), "n_samples": g.randint(1, 5),
                          "np_seed": g.randint(0, 2**31 - 1)}
         case["schedule"] = world.gen_schedule(ch.sub("sched"))
     return case
+
+
+def apply_edits(continuum, edits, labels):
+    """Operations a caller may perform on this very object between two alignment requests."""
+    from pyannote.core import Segment
+    n = 0
+    for op, ai, ui, start, dur, li, shift in edits:
+        annots = list(continuum.annotators)
+        a = annots[ai % len(annots)]
+        units = list(continuum.iter_annotator(a))
+        if op in ("move", "remove"):
+            if not units or continuum.num_units <= 2:
+                continue
+            u = units[ui % len(units)]
+            continuum.remove(a, u)
+            n += 1
+            if op == "move":   # the same unit handed to another annotator: total unit count unchanged
+                b = annots[(ai + shift) % len(annots)]
+                continuum.add(b, u.segment, u.annotation)
+        else:
+            continuum.add(a, Segment(start, start + dur), labels[li % len(labels)])
+            n += 1
+    return n
 
 
 def monitored_fast(continuum, dissim, w):
@@ -131,63 +160,75 @@ def run(case):
     stats, violations = {}, []
     cd = digest([case["continuum"], case["dissim"]])
     keys = {"cases": [cd], "nontrivial": []}
-    n_annot = continuum.num_annotators
-    n_units = continuum.num_units
-    windows = case.get("windows") or list(range(1, math.ceil(n_units / n_annot) + 2))
-    before = world.continuum_key(continuum)
-    try:
-        best = continuum.get_best_alignment(dissim)
-        best_d = float(best.disorder)
-    except Exception as e:  # noqa: BLE001  (C01's business; cannot judge C10 here)
-        return {"violations": [], "stats": {"skipped_best_raises": 1}, "keys": keys, "digest": digest("skip")}
-    pc = ao.PairCosts(continuum, dissim)
-    results = {}
-    for w in windows:
-        al, outcome, iters, info = monitored_fast(continuum, dissim, w)
-        stats["fast_calls"] = stats.get("fast_calls", 0) + 1
-        stats["window_iterations"] = stats.get("window_iterations", 0) + iters
-        stats["max_window_iterations"] = max(stats.get("max_window_iterations", 0), iters)
-        if outcome == "stall":
-            violations.append({"kind": "no_progress", "msg": f"get_fast_alignment(window_size={w}) does not terminate: {info}",
-                               "sig": {"liveness": True}, "window": w})
-            continue
-        if outcome == "step_budget":
-            violations.append({"kind": "no_progress",
-                               "msg": f"get_fast_alignment(window_size={w}) exceeded {STEP_BUDGET} package source lines",
-                               "sig": {"liveness": True}, "window": w})
-            continue
-        if outcome != "ok":
-            err = outcome[1]
-            violations.append({"kind": "raises", "msg": f"get_fast_alignment(window_size={w}) raised {type(err).__name__}: {err}",
-                               "sig": {"exc": type(err).__name__}, "window": w})
-            continue
-        stats["steps"] = stats.get("steps", 0) + (info or 0)
-        if iters >= 2:
-            keys["nontrivial"].append(digest([cd, w]))
-        errs = ao.structure_errors(al, continuum)
-        if errs:
-            violations.append({"kind": "not_a_partition", "msg": f"window_size={w}: " + "; ".join(errs[:3]), "sig": {}, "window": w})
-            continue
-        d = float(al.disorder)
-        results[w] = d
-        rec = ao.alignment_disorder_from_units(pc, al)
-        if not ao.close(d, rec):
-            violations.append({"kind": "disorder_mismatch",
-                               "msg": f"window_size={w}: reported disorder {d!r}, its own units give {rec!r}", "sig": {}, "window": w})
-        if d < best_d and not ao.close(d, best_d):
-            violations.append({"kind": "better_than_optimal",
-                               "msg": f"window_size={w}: fast disorder {d!r} is below the best alignment's {best_d!r}",
-                               "sig": {}, "window": w})
-        if w * n_annot >= n_units:
-            stats["whole_continuum_windows"] = stats.get("whole_continuum_windows", 0) + 1
-            if not ao.close(d, best_d):
-                violations.append({"kind": "whole_window_differs",
-                                   "msg": f"window_size={w} covers the whole continuum ({n_units} units, {n_annot} annotators) "
-                                          f"but fast disorder {d!r} != best {best_d!r}", "sig": {}, "window": w})
-        elif not ao.close(d, best_d):
-            stats["fast_worse_than_best"] = stats.get("fast_worse_than_best", 0) + 1
-    if world.continuum_key(continuum) != before:
-        violations.append({"kind": "input_modified", "msg": "get_fast_alignment changed the continuum it was called on", "sig": {}})
+    results, results_round0 = {}, None
+    # round 0: the continuum as generated.  round 1 (history, a third of the cases): the SAME continuum and dissimilarity
+    # objects after the caller moved / removed / added units - anything either object memoised in round 0 must follow
+    for rnd in range(2 if case.get("edits") else 1):
+        if rnd:
+            if violations:
+                break
+            stats["edit_ops_applied"] = apply_edits(continuum, case["edits"], world.LABEL_SETS[case["continuum"].get("labelset", "alpha")])
+            stats["cases_with_history"] = 1
+            results_round0, results = results, {}
+        n_annot = continuum.num_annotators
+        n_units = continuum.num_units
+        windows = (case.get("windows") if not rnd else None) or list(range(1, math.ceil(n_units / n_annot) + 2))
+        before = world.continuum_key(continuum)
+        try:
+            best = continuum.get_best_alignment(dissim)
+            best_d = float(best.disorder)
+        except Exception as e:  # noqa: BLE001  (C01's business; cannot judge C10 here)
+            if rnd:
+                stats["skipped_best_raises_after_edit"] = 1
+                break
+            return {"violations": [], "stats": {"skipped_best_raises": 1}, "keys": keys, "digest": digest("skip")}
+        pc = ao.PairCosts(continuum, dissim)
+        for w in windows:
+            al, outcome, iters, info = monitored_fast(continuum, dissim, w)
+            stats["fast_calls"] = stats.get("fast_calls", 0) + 1
+            stats["window_iterations"] = stats.get("window_iterations", 0) + iters
+            stats["max_window_iterations"] = max(stats.get("max_window_iterations", 0), iters)
+            if outcome == "stall":
+                violations.append({"kind": "no_progress", "msg": f"get_fast_alignment(window_size={w}) does not terminate: {info}",
+                                   "sig": {"liveness": True}, "window": w, "round": rnd})
+                continue
+            if outcome == "step_budget":
+                violations.append({"kind": "no_progress",
+                                   "msg": f"get_fast_alignment(window_size={w}) exceeded {STEP_BUDGET} package source lines",
+                                   "sig": {"liveness": True}, "window": w, "round": rnd})
+                continue
+            if outcome != "ok":
+                err = outcome[1]
+                violations.append({"kind": "raises", "msg": f"get_fast_alignment(window_size={w}) raised {type(err).__name__}: {err}",
+                                   "sig": {"exc": type(err).__name__}, "window": w, "round": rnd})
+                continue
+            stats["steps"] = stats.get("steps", 0) + (info or 0)
+            if iters >= 2:
+                keys["nontrivial"].append(digest([cd, w]))
+            errs = ao.structure_errors(al, continuum)
+            if errs:
+                violations.append({"kind": "not_a_partition", "msg": f"window_size={w}: " + "; ".join(errs[:3]), "sig": {}, "window": w, "round": rnd})
+                continue
+            d = float(al.disorder)
+            results[w] = d
+            rec = ao.alignment_disorder_from_units(pc, al)
+            if not ao.close(d, rec):
+                violations.append({"kind": "disorder_mismatch",
+                                   "msg": f"window_size={w}: reported disorder {d!r}, its own units give {rec!r}", "sig": {}, "window": w, "round": rnd})
+            if d < best_d and not ao.close(d, best_d):
+                violations.append({"kind": "better_than_optimal",
+                                   "msg": f"window_size={w}: fast disorder {d!r} is below the best alignment's {best_d!r}",
+                                   "sig": {}, "window": w, "round": rnd})
+            if w * n_annot >= n_units:
+                stats["whole_continuum_windows"] = stats.get("whole_continuum_windows", 0) + 1
+                if not ao.close(d, best_d):
+                    violations.append({"kind": "whole_window_differs",
+                                       "msg": f"window_size={w} covers the whole continuum ({n_units} units, {n_annot} annotators) "
+                                              f"but fast disorder {d!r} != best {best_d!r}", "sig": {}, "window": w, "round": rnd})
+            elif not ao.close(d, best_d):
+                stats["fast_worse_than_best"] = stats.get("fast_worse_than_best", 0) + 1
+        if world.continuum_key(continuum) != before:
+            violations.append({"kind": "input_modified", "msg": "get_fast_alignment changed the continuum it was called on", "sig": {}})
 
     # ---- fast-mode gamma in the simulated pool ---------------------------------
     if "gamma" in case and not violations:
@@ -234,8 +275,9 @@ def run(case):
         else:
             stats["gamma_fast_windowed"] = 1
     return {"violations": violations, "stats": stats, "keys": keys,
-            "digest": digest([results, best_d, [v["kind"] for v in violations]]),
-            "sample": {"case": case, "best_disorder": best_d, "fast_disorder_by_window": results}}
+            "digest": digest([results_round0, results, best_d, [v["kind"] for v in violations]]),
+            "sample": {"case": case, "best_disorder": best_d, "fast_disorder_by_window": results,
+                       "fast_disorder_by_window_before_edits": results_round0}}
 
 
 def shrink_candidates(case, violation):
@@ -244,6 +286,15 @@ def shrink_candidates(case, violation):
         for k in ("gamma", "schedule"):
             c.pop(k, None)
         yield c
+    if case.get("edits"):
+        c = copy.deepcopy(case)
+        c.pop("edits")
+        yield c
+        if len(case["edits"]) > 1:
+            for i in range(len(case["edits"])):
+                c = copy.deepcopy(case)
+                del c["edits"][i]
+                yield c
     if violation.get("window") is not None and case.get("windows") != [violation["window"]]:
         c = copy.deepcopy(case)
         c["windows"] = [violation["window"]]
